@@ -144,7 +144,7 @@ def parse_fields(line):
 
 BASE = [("rand", 600, []), ("tiny", 600, []), ("wide", 40, []), ("mutate", 200, []), ("insert", 200, []),
         ("order", 100, []), ("retain", 100, []), ("iter", 150, []), ("clone", 100, []), ("capacity", 40, []),
-        ("churn", 3, []), ("huge", 1, []), ("tomb", 0, []), ("panic", 60, []), ("exh", 0, ["--depth", "2"])]
+        ("churn", 3, []), ("huge", 1, []), ("tomb", 0, []), ("cluster", 0, []), ("panic", 60, []), ("exh", 0, ["--depth", "2"])]
 
 
 def fam(name, seqs, *extra):
@@ -231,8 +231,8 @@ MIRI_PLAN = {
 }
 MIRI_FLAGS = "-Zmiri-disable-isolation -Zmiri-permissive-provenance -Zmiri-ignore-leaks"
 
-EXHAUSTIVE_FAMILIES = {"iterx", "forgetx", "retainx", "capx", "panicx", "exh", "slide", "tomb"}
-SHARDED = {"iterx", "forgetx", "retainx", "panicx", "exh", "slide", "tomb"}
+EXHAUSTIVE_FAMILIES = {"iterx", "forgetx", "retainx", "capx", "panicx", "exh", "slide", "tomb", "cluster"}
+SHARDED = {"iterx", "forgetx", "retainx", "panicx", "exh", "slide", "tomb", "cluster"}
 
 
 def plan(prop, tier):
